@@ -99,6 +99,11 @@ def _uninstrument(codes):
     _SIM_THREADS.clear()
 
 
+class SimSelfDeadlock(RuntimeError):
+    """A single caller tried to take a (non re-entrant) lock that is still held: with a real
+    lock it would hang for ever."""
+
+
 class SimAbort(BaseException):
     """Raised inside simulated threads to unwind them (deadlock / step cap)."""
 
@@ -297,7 +302,7 @@ class SimLock:
         if sim is None or sim.cur is None:
             # outside a simulation (e.g. module import): behave like an uncontended lock
             if self.owner is not None:
-                raise RuntimeError("SimLock used outside simulation while held")
+                raise SimSelfDeadlock("lock acquired while it is still held (never released by an earlier operation)")
             self.owner = "outside"
             return True
         me = sim.cur
